@@ -461,7 +461,10 @@ def oracle_doc(ck: Check, camp, doc: dict, style: str, routing: str, insts: list
             nfi = semrun.NF(doc).nf(_body(doc))
             nfr = semrun.NF(rep).nf(_body(rep))
             for d in semrun.compare(nfi, nfr, style):
-                cls = {**base, "oracle": "schema_keyword_lost", "keyword": d.keyword, "location": d.location, "cause": diff_cause(d), "in_union": "|" in d.path}
+                dc = diff_cause(d)
+                if dc == "none" and style == "v1" and d.keyword == "enum" and (d.leaf or {}).get("const") and semgen.allof_required_const(doc):
+                    dc = "v1_const_member_required_by_allOf"  # `Field(..., const=True)`: the reported constant is null (C03's D41)
+                cls = {**base, "oracle": "schema_keyword_lost", "keyword": d.keyword, "location": d.location, "cause": dc, "in_union": "|" in d.path}
                 ck.fail(cls, {**inp, "path": d.path}, f"reported schema at {d.path}: `{d.keyword}` expected {d.expected!r}, reported {d.got!r}")
             camp.hit("schema_compared")
         if len(camp.samples) < 2 and muts:
